@@ -9,20 +9,36 @@
    Per-operation specifications (all for states satisfying [linv]): nextRune_spec, accept_spec,
    acceptAllLoop_spec, newToken_spec, lexError_spec, scan*Loop_spec, scanString_spec,
    scanEscapedName_spec, scanRegex_spec, scanNumber_spec, scanNameLoop_spec, scanName_spec,
-   trySymbols2_spec, and next_spec; main theorems at the end of the file. *)
+   trySymbols2_spec, and next_spec_af.  They are stated with a flag [af]: with [af = true] running out of
+   fuel is tolerated (so they hold for EVERY fuel: nothing can make the lexer panic), with
+   [af = false] it is not (enough fuel always yields a token).  Main theorems at the end. *)
 From JV Require Import Model.Lexer.
 From Coq Require Import Lia ZifyBool ZifyNat.
 Open Scope Z_scope.
 
 Definition linv (l : lexer) : Prop := 0 <= start l /\ start l <= current l /\ current l <= llength l.
 
+Section AF.
+(* [af = true]: running out of fuel is tolerated (used to show that NO amount of fuel can make
+   the lexer panic); [af = false]: it is not (used to show that enough fuel always succeeds). *)
+Variable af : bool.
+
 Definition lspec {A} (r : res (A * lexer)) (Q : A -> lexer -> Prop) : Prop :=
-  match r with ROk (a, l') => Q a l' | _ => False end.
+  match r with ROk (a, l') => Q a l' | RFuel => af = true | _ => False end.
+
+Definition fuel_ok (fuel : nat) (l : lexer) : Prop :=
+  af = true \/ llength l - current l < Z.of_nat fuel.
+
+Ltac fuel_tac :=
+  match goal with
+  | Hf : fuel_ok _ _ |- fuel_ok _ _ =>
+      let H := fresh in destruct Hf as [H|H]; [left; exact H|right; unfold llength in *; lia]
+  end.
 
 Lemma lspec_bind {A B} (m : LM A) (k : A -> LM B) l (Q : A -> lexer -> Prop) (R : B -> lexer -> Prop) :
   lspec (m l) Q -> (forall a l', Q a l' -> lspec (k a l') R) -> lspec (sbind m k l) R.
 Proof.
-  unfold sbind, lspec. destruct (m l) as [[a l']| | |]; try contradiction. intros HQ Hk. apply Hk, HQ.
+  unfold sbind, lspec. destruct (m l) as [[a l']| | |]; try contradiction; auto. intros HQ Hk. apply Hk, HQ.
 Qed.
 
 Lemma lspec_weaken {A} (r : res (A * lexer)) (Q R : A -> lexer -> Prop) :
@@ -133,20 +149,20 @@ Proof.
 Qed.
 
 Lemma acceptAllLoop_spec P fuel : P eof = false -> forall b l, linv l ->
-  llength l - current l < Z.of_nat fuel ->
+  fuel_ok fuel l ->
   lspec (acceptAllLoop fuel P b l) (fun b' l' =>
     ext l l' /\ P (peekRune l') = false /\ (b' = false -> b = false /\ current l' = current l)
     /\ (b' = true -> b = true \/ current l < current l')).
 Proof.
   intros HP. induction fuel as [|f IH]; intros b l Hl Hf.
-  - destruct Hl as (H0 & H1 & H2). lia.
+  - destruct Hl as (H0 & H1 & H2). destruct Hf as [Hf|Hf]; [exact Hf|lia].
   - cbn [acceptAllLoop].
     eapply lspec_bind; [apply accept_spec; auto|].
     intros ok l1 (Hok & E1 & Ht & Hfl). cbv beta.
     destruct ok.
     + specialize (Ht eq_refl).
       eapply lspec_weaken.
-      * apply IH; [eapply ext_linv; eauto|]. rewrite (ext_llength _ _ E1). lia.
+      * apply IH; [eapply ext_linv; eauto|]. pose proof (ext_llength _ _ E1). fuel_tac.
       * intros b' l' (E2 & HP' & Hb' & Hb''). refine (conj _ (conj _ (conj _ _))).
         -- eapply ext_trans; eauto.
         -- exact HP'.
@@ -226,11 +242,11 @@ Proof.
   - rewrite Hw. repeat split; auto; lia.
 Qed.
 
-Lemma scanStringLoop_spec q fuel : forall l, linv l -> llength l - current l < Z.of_nat fuel ->
+Lemma scanStringLoop_spec q fuel : forall l, linv l -> fuel_ok fuel l ->
   lspec (scanStringLoop fuel q l) (loop_post l).
 Proof.
   induction fuel as [|f IH]; intros l Hl Hf.
-  - destruct Hl as (H0 & H1 & H2). lia.
+  - destruct Hl as (H0 & H1 & H2). destruct Hf as [Hf|Hf]; [exact Hf|lia].
   - cbn [scanStringLoop].
     eapply lspec_bind; [apply nextRune_spec; exact Hl|].
     intros r l1 Hn. cbv beta.
@@ -248,7 +264,7 @@ Proof.
       pose proof (ext_trans _ _ _ E1 E2) as E12.
       destruct (negb (r2 =? eof)) eqn:Ee.
       - eapply lspec_weaken; [apply IH; [exact Hl2|]|].
-        + destruct E2 as (_ & _ & _ & Ec & _). lia.
+        + destruct E2 as (_ & _ & _ & Ec & _). fuel_tac.
         + intros o l'. apply loop_post_mono; auto.
       - eapply lspec_bind.
         + apply (lexError_spec l); auto.
@@ -265,7 +281,7 @@ Proof.
       + intros t l' Hpost. apply lspec_ret. exact Hpost. }
     assert (Hne : r <> eof) by (apply Z.eqb_neq in Ee; exact Ee).
     specialize (Hp1 Hne).
-    eapply lspec_weaken; [apply IH; [exact Hl1|lia]|].
+    eapply lspec_weaken; [apply IH; [exact Hl1|fuel_tac]|].
     intros o l'. apply loop_post_mono; auto.
 Qed.
 Ltac step_next Hl r l1 E1 Hw1 Hc1 Hp1 Hl1 HL1 :=
@@ -285,16 +301,16 @@ Ltac finish_err l E :=
     intros t l' Hp; apply lspec_ret; exact Hp ].
 
 Lemma scanRegexLoop_spec delim fuel : delim <> eof -> forall depth l, linv l ->
-  llength l - current l < Z.of_nat fuel ->
+  fuel_ok fuel l ->
   lspec (scanRegexLoop fuel delim depth l) (loop_post l).
 Proof.
   intros Hd. induction fuel as [|f IH]; intros depth l Hl Hf.
-  - destruct Hl as (H0 & H1 & H2). lia.
+  - destruct Hl as (H0 & H1 & H2). destruct Hf as [Hf|Hf]; [exact Hf|lia].
   - cbn [scanRegexLoop].
     step_next Hl r l1 E1 Hw1 Hc1 Hp1 Hl1 HL1.
     assert (Hrec : forall d, r <> eof -> lspec (scanRegexLoop f delim d l1) (loop_post l)).
     { intros d Hne. specialize (Hp1 Hne).
-      eapply lspec_weaken; [apply IH; [exact Hl1|lia]|].
+      eapply lspec_weaken; [apply IH; [exact Hl1|fuel_tac]|].
       intros o l'. apply loop_post_mono; auto. }
     destruct (r =? delim) eqn:Eq.
     { apply Z.eqb_eq in Eq. destruct (depth =? 0).
@@ -311,7 +327,7 @@ Proof.
       pose proof (ext_trans _ _ _ E1 E2) as E12.
       destruct (negb (r2 =? eof) && negb (r2 =? 10)) eqn:Ee.
       - eapply lspec_weaken; [apply IH; [exact Hl2|]|].
-        + destruct E2 as (_ & _ & _ & Ec2 & _). lia.
+        + destruct E2 as (_ & _ & _ & Ec2 & _). fuel_tac.
         + intros o l'. apply loop_post_mono; auto.
       - finish_err l E12. }
     destruct ((r =? eof) || (r =? 10)) eqn:Ee.
@@ -320,11 +336,11 @@ Proof.
 Qed.
 
 Lemma scanEscapedNameLoop_spec q fuel : forall l, linv l ->
-  llength l - current l < Z.of_nat fuel ->
+  fuel_ok fuel l ->
   lspec (scanEscapedNameLoop fuel q l) (loop_post l).
 Proof.
   induction fuel as [|f IH]; intros l Hl Hf.
-  - destruct Hl as (H0 & H1 & H2). lia.
+  - destruct Hl as (H0 & H1 & H2). destruct Hf as [Hf|Hf]; [exact Hf|lia].
   - cbn [scanEscapedNameLoop].
     step_next Hl r l1 E1 Hw1 Hc1 Hp1 Hl1 HL1.
     destruct (r =? q) eqn:Eq.
@@ -333,7 +349,7 @@ Proof.
     { finish_err l E1. }
     assert (Hne : r <> eof) by (intro Hr; rewrite Hr in Ee; discriminate Ee).
     specialize (Hp1 Hne).
-    eapply lspec_weaken; [apply IH; [exact Hl1|lia]|].
+    eapply lspec_weaken; [apply IH; [exact Hl1|fuel_tac]|].
     intros o l'. apply loop_post_mono; auto.
 Qed.
 Lemma tail_spec ty q l0 l (k : token -> LM token) (Q : token -> lexer -> Prop) :
@@ -375,7 +391,7 @@ Proof.
   refine (conj Hi (conj Hl' (conj Hc (conj _ (conj _ (conj _ _)))))); try (rewrite Hpos; lia); try tauto.
 Qed.
 
-Lemma scanString_spec fuel q l : linv l -> llength l - current l < Z.of_nat fuel -> q <> eof ->
+Lemma scanString_spec fuel q l : linv l -> fuel_ok fuel l -> q <> eof ->
   lspec (scanString fuel q l) (scan_post l).
 Proof.
   intros Hl Hf Hq. unfold scanString.
@@ -388,7 +404,7 @@ Proof.
     apply scan_post_intro; auto; rewrite Hty; discriminate.
 Qed.
 
-Lemma scanEscapedName_spec fuel q l : linv l -> llength l - current l < Z.of_nat fuel -> q <> eof ->
+Lemma scanEscapedName_spec fuel q l : linv l -> fuel_ok fuel l -> q <> eof ->
   lspec (scanEscapedName fuel q l) (scan_post l).
 Proof.
   intros Hl Hf Hq. unfold scanEscapedName.
@@ -406,7 +422,7 @@ Lemma isDigit_eof : isDigit eof = false. Proof. reflexivity. Qed.
 Lemma isNonZeroDigit_eof : isNonZeroDigit eof = false. Proof. reflexivity. Qed.
 Lemma isWhitespace_eof : isWhitespace eof = false. Proof. reflexivity. Qed.
 
-Lemma scanRegex_spec fuel q l : linv l -> llength l - current l < Z.of_nat fuel -> q <> eof ->
+Lemma scanRegex_spec fuel q l : linv l -> fuel_ok fuel l -> q <> eof ->
   lspec (scanRegex fuel q l) (scan_post l).
 Proof.
   intros Hl Hf Hq. unfold scanRegex.
@@ -423,7 +439,7 @@ Proof.
     intros t l' Hty Hpos Hl' Hi He Hs Hcc.
     assert (HL' : llength l' = llength l) by (unfold llength; now rewrite Hi).
     eapply lspec_bind.
-    { apply acceptAllLoop_spec; [reflexivity|exact Hl'|]. rewrite HL'. lia. }
+    { apply acceptAllLoop_spec; [reflexivity|exact Hl'|]. fuel_tac. }
     intros b l2 (E2 & _). cbv beta.
     pose proof (ext_linv _ _ Hl' E2) as Hl2.
     destruct E2 as (Ei2 & Es2 & Ee2 & Ec2 & El2).
@@ -462,7 +478,7 @@ Proof.
   apply scan_post_intro; auto; rewrite Hty; auto.
 Qed.
 
-Lemma scanNumber_spec fuel l : linv l -> llength l - current l < Z.of_nat fuel ->
+Lemma scanNumber_spec fuel l : linv l -> fuel_ok fuel l ->
   lspec (scanNumber fuel l) (fun t l' => tok_post typeNumber l t l'
                                          /\ (isDigit (peekRune l) = true -> current l < current l')).
 Proof.
@@ -480,7 +496,7 @@ Proof.
       pose proof (ext_linv _ _ Hl1 E2) as Hl2. pose proof (ext_llength _ _ E2) as HL2.
       eapply lspec_bind.
       { apply acceptAllLoop_spec; [reflexivity|exact Hl2|].
-        destruct E2 as (_ & _ & _ & Ec & _). lia. }
+        destruct E2 as (_ & _ & _ & Ec & _). fuel_tac. }
       intros b l3 (E3 & _). cbv beta. apply lspec_ret.
       split; [eapply ext_trans; [exact E1|eapply ext_trans; eauto]|].
       intros Hd. rewrite (peek_eq l l1) in Hnz by (destruct E1 as (Ei & Es & Ee & _); auto).
@@ -492,8 +508,9 @@ Proof.
   intros _ l2 (E2 & Hprog). cbv beta.
   pose proof (ext_linv _ _ Hl E2) as Hl2. pose proof (ext_llength _ _ E2) as HL2.
   unfold sbind at 1. cbv beta iota.
-  assert (Hf2 : llength l2 - current l2 < Z.of_nat fuel).
-  { destruct E2 as (_ & _ & _ & Ec & _). lia. }
+  assert (Hf2 : fuel_ok fuel l2).
+  { destruct E2 as (_ & _ & _ & Ec & _). fuel_tac. }
+  clear Hf.
   (* the exponent part and the final token, from any later state *)
   set (rest := (do e <- acceptRunes2 (ch "e") (ch "E");
                 (if e then (do _a <- acceptRunes2 (ch "+") (ch "-");
@@ -515,7 +532,7 @@ Proof.
         eapply lspec_bind.
         { apply acceptAllLoop_spec; [reflexivity|exact Hl4|].
           destruct Ex as (_ & _ & _ & Ecx & _). destruct E3 as (_ & _ & _ & Ec3 & _).
-          destruct E4 as (_ & _ & _ & Ec4 & _). lia. }
+          destruct E4 as (_ & _ & _ & Ec4 & _). fuel_tac. }
         intros b l5 (E5 & _). cbv beta. apply lspec_ret. eapply ext_trans; eauto.
       - apply lspec_ret. apply ext_refl; auto. }
     intros _ l4 E4. cbv beta.
@@ -532,7 +549,7 @@ Proof.
   destruct dot.
   - eapply lspec_bind.
     { apply acceptAllLoop_spec; [reflexivity|exact Hl3|].
-      destruct E3 as (_ & _ & _ & Ec3 & _). lia. }
+      destruct E3 as (_ & _ & _ & Ec3 & _). fuel_tac. }
     intros digits l4 (E4 & _). cbv beta.
     pose proof (ext_linv _ _ Hl3 E4) as Hl4.
     destruct digits; cbv [negb].
@@ -574,13 +591,13 @@ Proof.
   intros Hl (Ei & Es & Ee & Ec & El) Hw Hc. unfold ext; simpl. repeat split; auto; lia.
 Qed.
 
-Lemma scanNameLoop_spec fuel : forall first l, linv l -> llength l - current l < Z.of_nat fuel ->
+Lemma scanNameLoop_spec fuel : forall first l, linv l -> fuel_ok fuel l ->
   lspec (scanNameLoop fuel first l) (fun _ l' =>
     ext l l' /\ (first = true -> peekRune l <> eof -> isWhitespace (peekRune l) = false ->
                  current l < current l')).
 Proof.
   induction fuel as [|f IH]; intros first l Hl Hf.
-  - destruct Hl as (H0 & H1 & H2). lia.
+  - destruct Hl as (H0 & H1 & H2). destruct Hf as [Hf|Hf]; [exact Hf|lia].
   - cbn [scanNameLoop].
     eapply lspec_bind; [apply nextRune_spec; exact Hl|].
     intros c l1 Hn. cbv beta.
@@ -596,12 +613,12 @@ Proof.
     destruct (negb first && _) eqn:Es.
     { unfold backup, lspec. split; [apply backup_ext; auto|].
       intros Hfirst. rewrite Hfirst in Es. discriminate Es. }
-    eapply lspec_weaken; [apply IH; [exact Hl1|lia]|].
+    eapply lspec_weaken; [apply IH; [exact Hl1|fuel_tac]|].
     intros _ l' (E2 & _). split; [eapply ext_trans; eauto|].
     intros _ _ _. destruct E2 as (_ & _ & _ & Ec2 & _). lia.
 Qed.
 
-Lemma scanName_spec fuel l : linv l -> llength l - current l < Z.of_nat fuel ->
+Lemma scanName_spec fuel l : linv l -> fuel_ok fuel l ->
   lspec (scanName fuel l) (fun t l' =>
     scan_post l t l' /\ (peekRune l <> eof -> isWhitespace (peekRune l) = false ->
                          current l < current l')).
@@ -620,7 +637,7 @@ Proof.
   intros _ l2 (Hl2 & Hi2 & He2 & Hc2 & Hs2a & Hs2b). cbv beta.
   assert (HL2 : llength l2 = llength l) by (unfold llength; now rewrite Hi2).
   assert (Hc12 : current l <= current l2) by (destruct E1 as (_ & _ & _ & Ec & _); lia).
-  eapply lspec_bind; [apply (scanNameLoop_spec fuel (negb isVar) l2 Hl2); lia|].
+  eapply lspec_bind; [apply (scanNameLoop_spec fuel (negb isVar) l2 Hl2); fuel_tac|].
   intros _ l3 (E3 & Hprog). cbv beta.
   pose proof (ext_linv _ _ Hl2 E3) as Hl3.
   eapply lspec_bind; [apply (newToken_tok_post typeName l2 l3 Hl2 E3)|].
@@ -722,7 +739,7 @@ Definition next_post (l : lexer) (t : token) (l' : lexer) : Prop :=
   scan_post l t l' /\
   (err l = None -> ttype t <> typeEOF -> ttype t <> typeError -> current l < current l').
 
-Theorem next_spec fuel allowRegex l : linv l -> llength l - current l < Z.of_nat fuel ->
+Theorem next_spec_af fuel allowRegex l : linv l -> fuel_ok fuel l ->
   lspec (next fuel allowRegex l) (next_post l).
 Proof.
   intros Hl Hf. unfold next, skipWhitespace.
@@ -754,10 +771,10 @@ Proof.
     refine (conj Hi2 (conj _ (conj _ (conj _ (conj _ (conj _ _)))))); auto; try lia; try discriminate.
     unfold linv; auto. }
   apply Z.eqb_neq in Eeof. specialize (Hp2 Eeof). specialize (Hw2 Eeof).
-  assert (Hfuel2 : llength l2 - current l2 < Z.of_nat fuel) by lia.
+  assert (Hfuel2 : fuel_ok fuel l2) by fuel_tac.
   (* generic wrap-up for scanners started after an ignore at l2 *)
   assert (Hign : forall (sc : LM token),
-            (forall l3, linv l3 -> llength l3 - current l3 < Z.of_nat fuel ->
+            (forall l3, linv l3 -> fuel_ok fuel l3 ->
                         lspec (sc l3) (scan_post l3)) ->
             lspec ((ignore ;; sc) l2) (next_post l)).
   { intros sc Hsc. unfold sbind at 1. unfold ignore. cbv beta iota.
@@ -765,7 +782,7 @@ Proof.
     assert (Hl3 : linv l3).
     { destruct Hl2 as (B0 & B1 & B2). unfold linv, l3, llength in *; simpl. lia. }
     eapply lspec_weaken; [apply (Hsc l3 Hl3)|].
-    { unfold l3, llength in *; simpl. exact Hfuel2. }
+    { exact Hfuel2. }
     intros t l' Hp. split.
     - apply (scan_post_rebase l l3); auto. unfold l3; simpl. lia.
     - intros _ _ _. destruct Hp as (_ & _ & Pc & _). unfold l3 in Pc; simpl in Pc. lia. }
@@ -787,7 +804,7 @@ Proof.
     - intros _ _ _. destruct Hp as (_ & _ & _ & _ & _ & Pc). lia. }
   (* from here on the state matters only up to ext from l2 *)
   assert (Hign3 : forall (sc : LM token),
-            (forall l4, linv l4 -> llength l4 - current l4 < Z.of_nat fuel ->
+            (forall l4, linv l4 -> fuel_ok fuel l4 ->
                         lspec (sc l4) (scan_post l4)) ->
             lspec ((ignore ;; sc) l3) (next_post l)).
   { intros sc Hsc. unfold sbind at 1. unfold ignore. cbv beta iota.
@@ -796,7 +813,7 @@ Proof.
     { destruct Hl3 as (B0 & B1 & B2). unfold linv, l4, llength in *; simpl. lia. }
     destruct E3 as (Ei3 & Es3 & Ee3 & Ec3 & El3).
     eapply lspec_weaken; [apply (Hsc l4 Hl4)|].
-    { unfold l4, llength in *; simpl. rewrite Ei3. lia. }
+    { destruct Hfuel2 as [H|H]; [left; exact H|right; unfold l4, llength in *; simpl; rewrite Ei3; lia]. }
     intros t l' Hp. split.
     - apply (scan_post_rebase l l4); auto; unfold l4; simpl; try congruence. lia.
     - intros _ _ _. destruct Hp as (_ & _ & Pc & _). unfold l4 in Pc; simpl in Pc. lia. }
@@ -813,7 +830,7 @@ Proof.
     assert (Hl4 : linv l4).
     { destruct Hl1 as (B0 & B1 & B2). unfold linv, l4, llength in *; simpl. rewrite Es, Ei. lia. }
     eapply lspec_weaken; [apply (scanNumber_spec fuel l4 Hl4)|].
-    { unfold llength in *. unfold l4; simpl. rewrite Ei, Hi1. lia. }
+    { destruct Hf as [H|H]; [left; exact H|right; unfold llength in *; unfold l4; simpl; rewrite Ei, Hi1; lia]. }
     intros t l' (Hp & Hprog). split.
     - apply (scan_post_rebase l l4); unfold l4; simpl; auto; try lia.
       eapply tok_post_scan; eauto; discriminate.
@@ -831,7 +848,7 @@ Proof.
   assert (Hl4 : linv l4).
   { destruct Hl1 as (B0 & B1 & B2). unfold linv, l4, llength in *; simpl. rewrite Es3, Es, Ei3, Ei. lia. }
   eapply lspec_weaken; [apply (scanName_spec fuel l4 Hl4)|].
-  { unfold llength in *. unfold l4; simpl. rewrite Ei3, Ei, Hi1, Es3, Es. lia. }
+  { destruct Hf as [H|H]; [left; exact H|right; unfold llength in *; unfold l4; simpl; rewrite Ei3, Ei, Hi1, Es3, Es; lia]. }
   intros t l' (Hp & Hprog). split.
   - apply (scan_post_rebase l l4); unfold l4; simpl; auto; try congruence; try lia.
   - intros _ _ _.
@@ -840,7 +857,17 @@ Proof.
     rewrite Hpk in Hprog. rewrite <- Hcp in Hws. specialize (Hprog Eeof Hws). lia.
 Qed.
 
+End AF.
+
 (* ================================================================ main theorems *)
+
+(* the specification of [next] when fuel exceeds the number of remaining bytes *)
+Theorem next_spec fuel allowRegex l : linv l -> llength l - current l < Z.of_nat fuel ->
+  match next fuel allowRegex l with ROk (t, l') => next_post l t l' | _ => False end.
+Proof.
+  intros Hl Hf. pose proof (next_spec_af false fuel allowRegex l Hl (or_intror Hf)) as H.
+  unfold lspec in H. destruct (next fuel allowRegex l) as [[t l']| | |]; auto. discriminate H.
+Qed.
 
 Lemma linv_newLexer src : linv (newLexer src).
 Proof. unfold linv, newLexer, llength; simpl. lia. Qed.
@@ -857,8 +884,22 @@ Theorem lex_bounds fuel allowRegex l :
   exists t l', next fuel allowRegex l = ROk (t, l') /\ linv l' /\ input l' = input l.
 Proof.
   intros Hl Hf. pose proof (next_spec fuel allowRegex l Hl Hf) as H.
-  unfold lspec in H. destruct (next fuel allowRegex l) as [[t l']| | |]; try contradiction.
+  destruct (next fuel allowRegex l) as [[t l']| | |]; try contradiction.
   destruct H as ((Hi & Hl' & _) & _). eauto.
+Qed.
+
+(* ... and whatever the fuel, [next] cannot panic (nor return RErr): it returns a token and a
+   state satisfying the invariant, or runs out of fuel *)
+Theorem lex_never_panics fuel allowRegex l : linv l ->
+  match next fuel allowRegex l with
+  | ROk (t, l') => linv l' /\ input l' = input l
+  | RFuel => True
+  | RErr _ | RPanic _ => False
+  end.
+Proof.
+  intros Hl. pose proof (next_spec_af true fuel allowRegex l Hl (or_introl eq_refl)) as H.
+  unfold lspec in H. destruct (next fuel allowRegex l) as [[t l']| | |]; auto.
+  destruct H as ((Hi & Hl' & _) & _). auto.
 Qed.
 
 (* the states the parser can see *)
@@ -895,7 +936,7 @@ Theorem lex_progress fuel allowRegex l :
     (ttype t = typeEOF \/ ttype t = typeError \/ current l < current l').
 Proof.
   intros Hl He Hf. pose proof (next_spec fuel allowRegex l Hl Hf) as H.
-  unfold lspec in H. destruct (next fuel allowRegex l) as [[t l']| | |]; try contradiction.
+  destruct (next fuel allowRegex l) as [[t l']| | |]; try contradiction.
   destruct H as (_ & Hp). exists t, l'. split; [reflexivity|].
   destruct (tt_eqb (ttype t) typeEOF) eqn:E1.
   { left. destruct (ttype t); try discriminate E1. reflexivity. }
@@ -925,6 +966,7 @@ Proof.
 Qed.
 
 Print Assumptions lex_bounds.
+Print Assumptions lex_never_panics.
 Print Assumptions reachable_linv.
 Print Assumptions lex_progress.
 Print Assumptions lex_error_wf.
